@@ -19,7 +19,7 @@ RULE = (
 ASSUMPTIONS = [
     "indices beyond the explored n (exhaustive n<=N_EXH, sampled n<=5000) and k>4 are not covered",
 ]
-REQUIRED = {"scorer_counting_runs_at_scale": {"quick": 1, "thorough": 1}, "unrank_checked": {"quick": 100000, "thorough": 1000000}, "scorer_runs": {"quick": 20, "thorough": 100}, "scorer_runs_production_regime": {"quick": 10, "thorough": 60}, "scorer_counting_runs": {"quick": 40, "thorough": 300}, "scorer_object_counting_runs": {"quick": 20, "thorough": 120}}
+REQUIRED = {"scorer_counting_runs_with_coinciding_samples": {"quick": 5, "thorough": 30}, "scorer_counting_runs_at_scale": {"quick": 1, "thorough": 1}, "unrank_checked": {"quick": 100000, "thorough": 1000000}, "scorer_runs": {"quick": 20, "thorough": 100}, "scorer_runs_production_regime": {"quick": 10, "thorough": 60}, "scorer_counting_runs": {"quick": 40, "thorough": 300}, "scorer_object_counting_runs": {"quick": 20, "thorough": 120}}
 
 N_EXH = {"quick": 40, "thorough": 64}
 BIG_N = [100, 317, 1000, 2000, 5000]
@@ -207,6 +207,29 @@ def run_shard(rec, tier, seed, shard, nshards):
             used = np.exp(np.asarray(sc, dtype=float) - term)
             rec.count("scorer_counting_runs")
             rec.check(bool(np.all(np.abs(used - want) <= 1e-6 * want)), "C15/scorer/triples-not-all-used", lambda: "the kernel evaluated %r triples, %d were selected (n_thetas=%d, budget=%d, C(n,3)=%d)" % (np.round(used, 3).tolist(), want, n_thetas, budget, total), {"n_thetas": n_thetas, "budget": budget})
+
+            if budget >= total and n_thetas >= 4:
+                # the weighted counting run: two posterior samples coincide (distance exactly 0 between them, 1 elsewhere).
+                # A triple that contains the pair still weighs 2 of 3: with all triples covered the score reveals the
+                # total weight 3*C(n,3) - 2... i.e. sum over triples of (d_ij + d_jk + d_ik)
+                dz = dd.copy()
+                npairs = int(rng.integers(1, 3))
+                zp = set()
+                while len(zp) < npairs:
+                    i_, j_ = sorted(int(x) for x in rng.choice(n_thetas, size=2, replace=False))
+                    zp.add((i_, j_))
+                for i_, j_ in zp:
+                    dz[i_, j_] = dz[j_, i_] = 0.0
+                import itertools as _it
+
+                want_w = sum(dz[a, b] + dz[b, c] + dz[a, c] for a, b, c in _it.combinations(range(n_thetas), 3)) / 3.0
+                try:
+                    scz = G.dbal_fast_gauss_scoring_vectorized(same_pred, ones, dz, np.random.default_rng(int(rng.integers(0, 2**31))), max_combos=budget)
+                    used_w = np.exp(np.asarray(scz, dtype=float) - term)
+                    rec.count("scorer_counting_runs_with_coinciding_samples")
+                    rec.check(bool(np.all(np.abs(used_w - want_w) <= 1e-6 * want_w)), "C15/scorer/triples-not-all-used", lambda: "with samples %r at distance 0 the kernel's score corresponds to a total triple weight of %r (in units of 3), all %d triples weigh %r" % (sorted(zp), np.round(used_w, 3).tolist(), total, want_w), {"n_thetas": n_thetas, "budget": budget, "zero_pairs": sorted(zp)})
+                except Exception as e:
+                    rec.violation("C15/scorer/raises", "weighted counting run raised %r" % (e,), {"n_thetas": n_thetas, "budget": budget})
 
             # the same counting run through the production entry point: a GaussianDBALScorer object configured with
             # this budget, a real Screen, a ThetaHolder of stub samples and a complete ChunkedDistanceMatrix
